@@ -27,8 +27,11 @@ META = {
             "modelled functions against the lists the model was written against and selects the variant; the real library's event trace "
             "(allocations with size class, frees, error/warning handler calls, returns, exit status) equals the model's trace for every single "
             "fault k and for seeded random multi-fault sets on mjgen and plugin models. Observed only: absence of NULL dereference / crash "
-            "(wait status of the forked child; freed blocks are quarantined and poisoned, no ASan build), no allocation through mju_malloc during "
-            "mj_step/mj_forward/mj_inverse on these models, mj_compile returning NULL with a non-empty error. Leaks are judged only on runs that "
+            "(wait status of the forked child; freed blocks are quarantined and poisoned; in the thorough tier a second pass runs the driver LINKED with "
+            "the AddressSanitizer/LeakSanitizer runtime - library code is not instrumented because include/mujoco/mjsan.h does not compile with gcc under "
+            "-fsanitize=address, so only the runtime's malloc/free/memcpy/memset interceptors and the leak check at the end of each completed scenario "
+            "apply; LeakSanitizer's verdict is compared with the live set of the hooks), no allocation through mju_malloc during "
+            "mj_step/mj_forward/mj_inverse/mj_resetData beyond the modelled ones on these models, mj_compile returning NULL with a non-empty error. Leaks are judged only on runs that "
             "return to the caller (NULL/error return, compile path); blocks live when mju_error ends the process or leaves through the harness' own "
             "longjmp handler are NOT counted as leaks. Not covered: the XML parser (not buildable here), failures of C++ new in the compiler, "
             "Python bindings, mjv_makeScene, mju_boxQPmalloc, mj_printFormattedData, flex collision scratch buffers, mesh/composite/flexcomp "
@@ -268,8 +271,9 @@ def run(ctx):
     except F.TranslatorError as e:
         ctx.broken.append(("translator", "allocation-site scan (translate/c21_scan.py)", str(e)))
         scan_ok = False
-        # keep going with the variant of the pinned tree: the monitor and the oracles still search for a failing schedule
-        variant, info = {"v_mbuf": False, "v_dbuf": False, "v_darena": False, "v_lstructs": False}, {"functions": {}, "allocators": {}}
+        # keep going with the variant read off leniently: the monitor and the oracles still search for a failing schedule
+        variant = getattr(e, "variant", None) or {"v_mbuf": False, "v_dbuf": False, "v_darena": False, "v_lstructs": False}
+        info = {"functions": {}, "allocators": {}}
     try:
         inv = S.inventory(ctx.repo)
     except OSError as e:
@@ -307,7 +311,7 @@ def run(ctx):
     else:
         gens = [(rng.randrange(1, 10 ** 6), ALL, 4), (rng.randrange(1, 10 ** 6), 0x0F, 3), (rng.randrange(1, 10 ** 6), ALL & ~0x8, 6)]
         if not quick:
-            for _ in range(7):
+            for _ in range(6):
                 gens.append((rng.randrange(1, 10 ** 6), rng.randrange(0, ALL + 1), rng.randrange(2, 9)))
         model_lines = {}
         for i, (sd, ft, nb) in enumerate(gens):
@@ -315,7 +319,7 @@ def run(ctx):
         p1, p2 = len(gens), len(gens) + 1
         model_lines[p1] = "MODEL %d plug 1" % p1
         model_lines[p2] = "MODEL %d plug 2" % p2
-        nr = 3 if quick else 10
+        nr = 3 if quick else 8
         lines = [model_lines[i] for i in sorted(model_lines)]
         for i in range(len(gens)):
             sd = rng.randrange(1, 10 ** 6)
@@ -335,12 +339,58 @@ def run(ctx):
                 lines.append("SWEEP CP %s %d 0 %d %d" % (mode, i, nr, sd + 1))
             lines.append("SWEEP ST J %d 0 %d %d" % (i, nr, sd + 2))
             lines.append("SWEEP CM J %d 0 1 %d" % (i, sd + 3))
-    rc, out, err = ctx.run(exe, "\n".join(lines) + "\n", timeout=540, args=[savepath])
+    def run_driver(executable, env=None, only_models=None):
+        """the MODEL lines go to each of up to 4 driver processes, the SWEEP/RUN lines are dealt round-robin"""
+        from concurrent.futures import ThreadPoolExecutor
+        mlines = [l for l in lines if l.startswith("MODEL")]
+        jobs = [l for l in lines if not l.startswith("MODEL") and (only_models is None or int(l.split()[3]) in only_models)]
+        nproc = max(1, min(4, len(jobs)))
+        chunks = [jobs[i::nproc] for i in range(nproc)]
+
+        def one(i):
+            return ctx.run(executable, "\n".join(mlines + chunks[i]) + "\n", timeout=540, args=["%s.%d" % (savepath, i)], env=env)
+        with ThreadPoolExecutor(max_workers=nproc) as ex:
+            res = list(ex.map(one, range(nproc)))
+        for i in range(nproc):
+            try:
+                os.remove("%s.%d" % (savepath, i))
+            except OSError:
+                pass
+        rc_ = max((r[0] for r in res), key=abs)
+        out_ = "\n".join(r[1] for r in res)
+        # SIZES lines repeat in every process: keep one copy
+        seen, keep = set(), []
+        for l in out_.split("\n"):
+            if l.startswith("SIZES "):
+                if l in seen:
+                    continue
+                seen.add(l)
+            keep.append(l)
+        return rc_, "\n".join(keep), "\n".join(r[2][-400:] for r in res)
+
+    rc, out, err = run_driver(exe)
+    asan_out = None
+    if ctx.tier == "thorough" and not ctx.replay:
+        # second pass, same schedules, executable linked with the AddressSanitizer/LeakSanitizer runtime
+        try:
+            ctx._lib = None          # libraries are pruned by concurrent builds: make sure the archive exists
+            with F.Lock("drv_c21_alloc_asan"):
+                exe_a = F.B.build_driver("c21_alloc_asan", ["c21_alloc.c"], ctx.repo, ctx.lib(), extra=("-DC21_ASAN",),
+                                         link_extra=("-fsanitize=address",))
+            env = dict(os.environ, ASAN_OPTIONS="exitcode=77:detect_leaks=1:abort_on_error=0", LSAN_OPTIONS="exitcode=0:print_suppressions=0")
+            tm["driver"] = round(time.time() - t0, 1); t0 = time.time()
+            # the sanitizer pass (leak check per child) is several times slower: first mjgen model + the two plugin models
+            rca, asan_out, erra = run_driver(exe_a, env, only_models={0, len(model_lines) - 2, len(model_lines) - 1})
+            tm["driver_asan"] = round(time.time() - t0, 1); t0 = time.time()
+            if rca != 0:
+                ctx.cov["support"]["asan_driver_rc"] = "%s %s" % (rca, erra[-300:])
+        except RuntimeError as e:
+            ctx.cov["support"]["asan"] = "ASan-linked driver did not build: " + str(e)[-300:]
     try:
         os.remove(savepath)
     except OSError:
         pass
-    tm["driver"] = round(time.time() - t0, 1); t0 = time.time()
+    tm.setdefault("driver", round(time.time() - t0, 1)); t0 = time.time()
     sizes, runs, other = parse_runs(out)
     if rc != 0 or not runs or any(o.startswith(("BADLINE", "FORKFAIL", "MMAPFAIL")) for o in other):
         ctx.broken.append(("correspondence", "driver c21_alloc failed", "rc=%s other=%s err=%s" % (rc, other[:5], err[-800:])))
@@ -390,17 +440,63 @@ def run(ctx):
         impl = evs
         if r.scen == "CP":
             impl = [e for e in evs if not e.startswith("Error")]
-        if np_ <= 2 and r.mode in "EJ":
+        if True:
             tie_cases.append("(%s, %s, [%s], %s, %s, %d, [%s])" % (
-                coq_scenario(r.scen, np_, r.rej), "HExit" if r.mode == "E" else "HJump",
+                coq_scenario(r.scen, min(np_, 2), r.rej), "HExit" if r.mode == "E" else "HJump",
                 "; ".join(map(str, r.fails)), clslist, coq_bool(r.scen == "CP"), endk, "; ".join(impl)))
             tie_runs.append((r, case))
         if r.fails:
             distinct.add((r.scen, r.mode, np_, r.rej, tuple(t.split(":")[0][0] + ":" + str(cls.get(int(t.split(":")[1]), 99))
                                                             for t in r.tokens if t[0] in "AX" and ":" in t)))
 
-    # the proved monitor on every implementation trace
-    bad = ctx.coq_eval("c21mon", IMPORTS, mon_cases, "fun t => safe_trace t", shard=150)
+    # ASan/LSan pass: same oracles; LeakSanitizer's verdict at a completed scenario must agree with the live set of the hooks
+    if asan_out is not None:
+        sizes_a, runs_a, other_a = parse_runs(asan_out)
+        n_lsan, n_agree, lsan_only = 0, 0, []
+        for r in runs_a:
+            sz = sizes_a.get(r.idx)
+            if sz is None:
+                continue
+            site_size, cls = size_table(sz)
+            case = {"models": [model_lines[r.idx]] if r.idx in model_lines else [],
+                    "run": "RUN %s %s %d %d %s" % (r.scen, r.mode, r.idx, r.rej, ",".join(map(str, r.fails)) or "-"), "asan": True}
+            for (what, detail, sig) in oracle(r, site_size):
+                if "plugin" in sig:
+                    sig["plugin"] = bool(sz["nplugin"])
+                sig.pop("failed", None)
+                key = "asan impl_violation " + " ".join("%s=%s" % kv for kv in sorted(sig.items()))
+                sigcount[key] = sigcount.get(key, 0) + 1
+                if sigcount[key] <= 3:
+                    ctx.violation("impl_violation", case, expected="no sanitizer report, crash, double free or leak",
+                                  observed="%s: %s | trace: %s | %s %s" % (what, detail, " ".join(r.tokens), r.trailer, r.status),
+                                  theorem="C21_protocol_safe", signature=sig, found_input=True)
+            m = re.search(r"lsan=(\d)", r.trailer)
+            if "END" in r.tokens and m:
+                n_lsan += 1
+                live = re.search(r"live:([\d,]*)", r.trailer)
+                has_live = bool(live and live.group(1))
+                if (m.group(1) == "1") == has_live:
+                    n_agree += 1
+                elif m.group(1) == "1":
+                    lsan_only.append(case["run"])
+        ctx.cov["support"]["asan"] = {"runs": len(runs_a), "completed_scenarios_leak_checked": n_lsan, "lsan_agrees_with_hook_live_set": n_agree,
+                                      "lsan_reports_leak_not_seen_by_hooks": lsan_only[:10]}
+    # one evaluation inside Coq per run: the proved monitor accepts the implementation trace AND the model generates the same trace;
+    # the failing runs are then evaluated again to tell the two apart
+    pre = PRE % tuple(coq_bool(variant[k]) for k in ("v_mbuf", "v_dbuf", "v_darena", "v_lstructs"))
+    pre += "\nDefinition both (c : scenario * hmode * list nat * list nat * bool * nat * trace) : bool :=\n" \
+           "  let '(_, _, _, _, _, _, impl) := c in safe_trace impl && tie c.\n"
+    assert len(tie_cases) == len(mon_cases)
+    failing = ctx.coq_eval("c21both", IMPORTS, tie_cases, "both", pre=pre, shard=200)
+    bad, dis = [], []
+    if failing:
+        sub = failing[:400]
+        b2 = ctx.coq_eval("c21mon", IMPORTS, [mon_cases[i] for i in sub], "fun t => safe_trace t", shard=100)
+        bad = [sub[j] for j in b2]
+        d2 = ctx.coq_eval("c21tie", IMPORTS, [tie_cases[i] for i in sub], "tie", pre=pre, shard=100)
+        dis = [sub[j] for j in d2]
+        if len(failing) > len(sub):
+            dis += failing[len(sub):]
     for i in bad[:10]:
         r, case = mon_runs[i]
         # already reported by the python oracle when it is a double/foreign free; otherwise report here
@@ -408,16 +504,12 @@ def run(ctx):
             ctx.violation("impl_violation", case, expected="safe_trace (proved monitor) accepts the implementation trace",
                           observed=" ".join(r.tokens) + " | " + r.status, theorem="C21_monitor_sound",
                           signature={"site": API.get(r.scen), "kind": "monitor-rejects-trace"}, found_input=True)
-    # model trace == implementation trace
-    pre = PRE % tuple(coq_bool(variant[k]) for k in ("v_mbuf", "v_dbuf", "v_darena", "v_lstructs"))
-    dis = ctx.coq_eval("c21tie", IMPORTS, tie_cases, "tie", pre=pre, shard=150)
     for i in dis[:6]:
         r, case = tie_runs[i]
         ctx.violation("correspondence", case, expected="trace generated by Model/AllocProto.v (variant %s) for the same scenario and schedule" % variant,
                       observed=" ".join(r.tokens) + " | " + r.status, found_input=False, theorem="correspondence c21_alloc",
                       signature={"site": API.get(r.scen), "kind": "trace-differs-from-model"},
                       note="implementation trace and model trace differ; the oracles on the implementation trace decide whether this is a defect")
-
     if bad:
         sigcount["monitor-rejections"] = len(bad)
     if dis:
